@@ -15,7 +15,7 @@ import (
 
 func init() {
 	Register(&World{Name: "group", Episodes: true, Props: []string{"C17"}, Concurrent: true, Timed: true, MaxSteps: 8000, Run: groupWorld})
-	ExpectedProbes["group"] = []string{"f-retriggers-itself-every-run", "periodic-interval-not-positive", "registration-after-stop", "registration-racing-stop", "trigger-during-run", "trigger-with-slot-full", "periodic-ran", "stop-while-f-running", "parent-cancelled", "do-ran", "periodic-or-trigger-by-timer", "periodic-or-trigger-by-trigger"}
+	ExpectedProbes["group"] = []string{"two-concurrent-stopandwait-calls", "f-retriggers-itself-every-run", "periodic-interval-not-positive", "registration-after-stop", "registration-racing-stop", "trigger-during-run", "trigger-with-slot-full", "periodic-ran", "stop-while-f-running", "parent-cancelled", "do-ran", "periodic-or-trigger-by-timer", "periodic-or-trigger-by-trigger"}
 }
 
 type groupReg struct {
@@ -297,6 +297,34 @@ func groupWorld(r *R) {
 			parent.Cancel()
 		})
 	}
+	// a second stopper (stopMode 2): another task calls StopAndWait at about the same time; whichever
+	// call returns first, nothing runs or starts after it
+	stopping := false
+	stopper2Done := stopMode != 2
+	if stopMode == 2 {
+		spin2 := r.Choose(6, "stop2-spin")
+		sim.GoNamed("stopper2", func() {
+			sim.WaitUntil("stopper2-wait", func() bool { return stopping || r.Failed() })
+			if r.Failed() {
+				return
+			}
+			Spin(spin2, "stopper2-pace")
+			r.Probe("two-concurrent-stopandwait-calls")
+			sim.Self().Label = "StopAndWait (second caller)"
+			g.StopAndWait()
+			sim.Self().Label = ""
+			if stopRet == 0 {
+				stopRet = sim.Seq()
+			}
+			r.Logf("the second StopAndWait returned #%d", sim.Seq())
+			for _, rg := range regs {
+				if rg.running > 0 {
+					r.Violate("C17", "running-at-stopandwait-return/"+kindName(rg.kind), "the second caller's StopAndWait returned while f%d (%s) is running", rg.id, kindName(rg.kind))
+				}
+			}
+			stopper2Done = true
+		})
+	}
 	// stopper
 	stopSpin := r.Choose(10, "stop-spin")
 	stopSleep := time.Duration(r.Choose(12, "stop-sleep")) * 31 * time.Millisecond
@@ -360,10 +388,13 @@ func groupWorld(r *R) {
 			anyStopInv = stopInv
 		}
 		r.Logf("StopAndWait invoked #%d", stopInv)
+		stopping = true
 		sim.Self().Label = "StopAndWait"
 		g.StopAndWait()
 		sim.Self().Label = ""
-		stopRet = sim.Seq()
+		if stopRet == 0 { // (the second stopper may have returned first)
+			stopRet = sim.Seq()
+		}
 		r.Logf("StopAndWait returned #%d", stopRet)
 		r.Hist("stopped")
 		for _, rg := range regs {
@@ -381,7 +412,7 @@ func groupWorld(r *R) {
 	if r.Failed() {
 		return
 	}
-	if !stopperDone {
+	if !stopperDone || !stopper2Done {
 		r.Violate("C17", "stuck/StopAndWait", "StopAndWait never returns: %v", sim.TaskStates())
 		return
 	}
